@@ -70,6 +70,7 @@ impl<E: Pairing> CommitterKey<E> {
 
     /// Given a polynomial `polynomial` of degree less than `max_degree`, return a commitment to `polynomial`.
     pub fn commit(&self, polynomial: &[E::ScalarField]) -> Commitment<E> {
+        assert!(self.powers_of_g.len() >= polynomial.len());
         Commitment(msm::<E>(&self.powers_of_g, polynomial))
     }
 
